@@ -70,7 +70,7 @@ class Normaliser:
                 return None     # second probe of the same absolute path inside one lookup
             return "probe " + a
         self.last_frame[tid] = None
-        if kind in ("stat", "tmpname", "lappend", "tclose") or kind.startswith("mv:"):
+        if kind in ("stat", "tmpname", "lappend", "tclose", "readsrc") or kind.startswith("mv:"):
             return None
         if kind == "size":
             a = self.addr(rel)
